@@ -45,7 +45,11 @@ def ctx(platform):
             sess = privgen.session_template(platform)
         except Exception:  # noqa: BLE001
             sess = None
-        _ctx[platform] = dict(rows=rows, default=default, abort=spec, sess=sess, marker=marker)
+        try:
+            hooks = privgen.hooks(platform)
+        except Exception:  # noqa: BLE001
+            hooks = None        # a hook shape that is not modelled: reported by translate(); the real hooks still run
+        _ctx[platform] = dict(rows=rows, default=default, abort=spec, sess=sess, marker=marker, hooks=hooks)
     return _ctx[platform]
 
 
@@ -180,20 +184,21 @@ def build(case):
 
 def observe(recs, snaps, t, conn, dev):
     return dict(recs=recs, log=list(dev.exec_log), probe=list(conn._probe), stalls=list(getattr(t, "stalls", [])), snaps=snaps,
-                nlevels=len(conn.privilege_levels))
+                nlevels=len(conn.privilege_levels),
+                levels={k: (l.pattern, list(l.not_contains)) for k, l in conn.privilege_levels.items()})
 
 
 def run_sync(case):
     from harness.privdevice import run_history
     plat, dev, kw = build(case)
-    recs, snaps, t, conn = run_history(plat, dev, [tuple(o) for o in case["ops"]], case["sec"], **kw)
+    recs, snaps, t, conn = run_history(plat, dev, [tuple(o) for o in case["ops"]], case["sec"], hooks=bool(case.get("hooks")), **kw)
     return observe(recs, snaps, t, conn, dev)
 
 
 async def run_async(case):
     from harness.privdevice import arun_history
     plat, dev, kw = build(case)
-    recs, snaps, t, conn = await arun_history(plat, dev, [tuple(o) for o in case["ops"]], case["sec"], **kw)
+    recs, snaps, t, conn = await arun_history(plat, dev, [tuple(o) for o in case["ops"]], case["sec"], hooks=bool(case.get("hooks")), **kw)
     return observe(recs, snaps, t, conn, dev)
 
 
@@ -206,7 +211,15 @@ def case_rows(case, sessions=None):
     return list(ctx(case["platform"])["rows"]) + session_rows(case["platform"], sessions)
 
 
-def request(case, obs):
+def stacks_differ(case):
+    """do the model requests of the two stacks differ (per-stack data: the on_open / on_close hooks)"""
+    if not case.get("hooks") or case["platform"] == "custom":
+        return False
+    h = ctx(case["platform"])["hooks"]
+    return bool(h) and h["sync"] != h["async"]
+
+
+def request(case, obs, stack="sync"):
     from harness.privdevice import device_extras, encode_request
     plat, dev, kw = build(case)
     if case["platform"] == "custom":
@@ -218,7 +231,57 @@ def request(case, obs):
         rows, default, abort, sess = c["rows"], c["default"], c["abort"], c["sess"]
     sessions = [o[1] for o in case["ops"] if o[0] == "R"]
     return encode_request(rows, default, case["sec"], abort, sess, {tuple(k) for k, _ in case["blocked"]}, case["dpw"], case["pwl"], list(case.get("fail", [])),
-                          device_extras(dev, rows, sessions), case["login"], obs["snaps"], [tuple(o) for o in case["ops"]])
+                          device_extras(dev, rows, sessions), case["login"], obs["snaps"], [tuple(o) for o in case["ops"]],
+                          hooks=(((ctx(case["platform"])["hooks"] or {}).get(stack) or ([], [])) if case.get("hooks") else None))
+
+
+# ---------- attribution to the known findings F11 / F11b: the narrow predicate
+class Belief:
+    """Tracks, from the observables only, whether an UNKNOWN belief is one the code documents: a fresh connection object,
+    generic-driver mode switched on, an operation that ended in an exception, or (inside one acquire_priv call) the reset before
+    a transition.  A get_prompt round meets the finding's predicate only if its unknown belief is explained that way:
+      belief unknown AND device level != requested level AND both in one share group
+      AND (it is not the first round of its acquire_priv call  OR  the belief was already — legitimately — unknown when the call was made).
+    An unknown belief that appears out of nothing (the call was made with a known belief, or an earlier successful operation that
+    must leave the belief alone / set lost it) is NOT the known finding."""
+
+    def __init__(self):
+        self.legit_unknown = True       # fresh connection object
+        self.prev = "DUMMY"
+        self.overlap = False
+
+    @staticmethod
+    def _admits(mode, dest, key, levels, prompt):
+        """does the prompt the device shows (in level `mode`) also admit the requested level `dest`?  Decided on the prompt string
+        that was actually read, with the documented classification rule (own implementation); share-group keys as a fall-back"""
+        if prompt is not None and levels and dest in levels:
+            from harness.privdevice import classify_prompt
+            return dest in classify_prompt(levels, prompt)
+        return key.get(mode) is not None and key.get(mode) == key.get(dest)
+
+    def _rounds(self, probes, key, levels):
+        for pr in probes:
+            bel, mode, dest, call_bel, rnd = pr[:5]
+            prompt = pr[5] if len(pr) > 5 else None
+            if bel == "DUMMY" and dest is not None and mode != dest and self._admits(mode, dest, key, levels, prompt):
+                ok = rnd > 0 or (call_bel == "DUMMY" and self.legit_unknown)
+                if ok and key.get(mode) != key.get(dest):
+                    self.overlap = True      # the two levels have DIFFERENT pattern text and still share the prompt (EOS session names)
+                yield ok
+
+    def hazard(self, probes, key, levels=None):
+        return any(self._rounds(probes, key, levels))
+
+    def unexplained(self, probes, key, levels=None):
+        """the same situation with an unknown belief that nothing explains"""
+        return any(not x for x in self._rounds(probes, key, levels))
+
+    def after(self, op, rec):
+        b = rec["belief"]
+        if b == "DUMMY":
+            explained = rec["out"] != "ok" or (op[0] == "g" and op[1])
+            self.legit_unknown = explained or (self.prev == "DUMMY" and self.legit_unknown)
+        self.prev = b
 
 
 # ---------- the oracle: the property itself, stated on the observables (never consults the model)
@@ -231,6 +294,8 @@ def oracle(case, obs):
     closed = False
     registered = []
     tainted = False      # an earlier acquisition met the finding's predicate and the belief has been wrong since
+    bt = Belief()
+    default = ctx(case["platform"])["default"] if case["platform"] != "custom" else None
     for i, (op, rec) in enumerate(zip(case["ops"], obs["recs"])):
         # the table as it is when this operation runs: base levels + the sessions registered so far
         rows = case_rows(case, registered)
@@ -240,14 +305,28 @@ def oracle(case, obs):
         n = len(rows)
         if op[0] == "R" and rec["out"] == "ok":
             registered = registered + [op[1]]
+        if op[0] == "O":
+            closed = False      # the connection object is opened (again)
         if closed:
-            # an earlier timeout closed the transport (scrapli's timeout handling): nothing more can reach the device
+            # a timeout or close() closed the transport: nothing more can reach the device
             if op[0] == "A" and (rec["out"] != "conn" or rec["loglen"] != prev["loglen"]):
-                out.append((f"op {i}: the transport was closed by a timeout, expected ScrapliConnectionNotOpened and no device line, got {rec['out']}", {}))
+                out.append((f"op {i}: the transport is closed, expected ScrapliConnectionNotOpened and no device line, got {rec['out']}", {}))
+            bt.after(op, rec)
             prev = rec
             continue
-        closed = rec["out"] in ("timeout", "auth") and len(obs["stalls"]) > 0
+        closed = (rec["out"] in ("timeout", "auth") and len(obs["stalls"]) > 0) or op[0] == "X"
+        if op[0] in ("O", "X"):
+            # the platform's on_open / on_close hook ran: its lines belong at the default desired level
+            seg = obs["log"][prev["loglen"]:rec["loglen"]]
+            probes = obs["probe"][prev["rounds"]:rec["rounds"]]
+            hz = bt.hazard(probes, key, obs.get("levels"))
+            out += hook_line_violations(f"op {i} {'open()' if op[0] == 'O' else 'close()'}: ", seg, cmds, case["sec"], default,
+                                        {"hazard": hz or tainted, "overlap": bt.overlap})
+            tainted = (tainted or hz) and rec["belief"] not in ("DUMMY", rec["mode"])
+            if not case["blocked"] and case["dpw"] is None and rec["out"] not in ("ok",):
+                out.append((f"op {i} {op[0]}: {rec['out']} although the device cooperates", {"hazard": hz or tainted}))
         if op[0] != "A":
+            bt.after(op, rec)
             prev = rec
             continue
         b, m0 = op[1], prev["mode"]
@@ -256,11 +335,15 @@ def oracle(case, obs):
         rounds = rec["rounds"] - prev["rounds"]
         prev = rec
         tag = f"op {i} acquire_priv({b!r}) from {m0!r}: "
-        hazard = any(bel == "DUMMY" and mode != b and key.get(mode) is not None and key.get(mode) == key.get(b) for bel, mode, *_ in probes)
+        hazard = bt.hazard(probes, key, obs.get("levels"))
+        bt.after(op, rec)
         # belief unknown while the device sits in a level that shares its prompt: after a refused transition the driver may take
         # the device for a sibling (first match) and type that sibling's command; the call still has to fail within the bound
-        ambiguous = any(bel == "DUMMY" and sum(1 for r in rows if r[5] == key.get(mode)) > 1 for bel, mode, *_ in probes)
-        flags = {"hazard": hazard or tainted}
+        from harness.privdevice import classify_prompt
+        lv = {k_: v for k_, v in (obs.get("levels") or {}).items() if k_ in names}
+        ambiguous = any(pr[0] == "DUMMY" and (sum(1 for r in rows if r[5] == key.get(pr[1])) > 1
+                                              or (len(pr) > 5 and lv and len(classify_prompt(lv, pr[5])) > 1)) for pr in probes)
+        flags = {"hazard": hazard or tainted, "overlap": bt.overlap}
         tainted = (tainted or hazard) and rec["belief"] not in ("DUMMY", rec["mode"])
         if rec["out"] in BAD or rec["out"].startswith("EXC:"):
             out.append((tag + f"ended with {rec['out']} (not a scrapli privilege / authentication / timeout error)", flags))
@@ -326,8 +409,21 @@ def oracle(case, obs):
     return out
 
 
+def hook_line_violations(tag, seg, cmds, sec, default, flags):
+    """lines typed by an on_open / on_close hook (anything that is neither a bare return, a navigation command of the table nor the
+    secondary password) must be executed in the default desired level"""
+    out = []
+    for (m, l) in seg:
+        if l and l not in cmds and l != sec and default is not None and m != default:
+            out.append((tag + f"hook line {l!r} was executed in level {m!r}, the default desired level is {default!r}", flags))
+            break
+    return out
+
+
 def matcher(case):
     f = case.get("flags") or {}
+    if f.get("hazard") and f.get("overlap"):
+        return "F24b"
     if f.get("hazard"):
         return "F11b"
     if f.get("pw_as_cmd"):
@@ -436,7 +532,27 @@ def custom_cases(rng, count, forest=False):
 
 
 SESSION_NAME_SETS = {"cisco_nxos": [("sessA", "sessB"), ("maint-a", "maint-b", "zz3")],
-                     "arista_eos": [("sessA", "other-b"), ("sessionA1", "sessionA2"), ("sessionA1", "sessionA2", "other-b")]}
+                     "arista_eos": [("sessA", "other-b"), ("sessionA1", "sessionA2"), ("sessionA1", "sessionA2", "other-b"),
+                                    # prefix- and case-related names: different pattern text, same prompts (outside the model's domain)
+                                    ("abc", "abcd"), ("sess", "SESS"), ("abc", "abcd", "ABCD")]}
+
+
+def outside_model(case):
+    """session names whose keys differ although one's case-folded pattern prefix is a prefix of the other's: the real patterns overlap
+    (EOS), the model's share-group keys do not — the model's device assumption (`SessPrefixFree`) excludes such tables"""
+    if case["platform"] == "custom":
+        return False
+    t = ctx(case["platform"])["sess"]
+    if not t:
+        return False
+    k = t["keyTake"]
+    names = list(dict.fromkeys(o[1] for o in case["ops"] if o[0] == "R"))
+    # since /repo 209703d the session name must be followed by ")" or "-<submode>": different keys still share prompts when they
+    # are equal up to case, or when one continues the other with "-"
+    def overlap(a, b):
+        a, b = a[:k], b[:k]
+        return a != b and (a.lower() == b.lower() or b.lower().startswith(a.lower() + "-"))
+    return any(overlap(a, b) for a in names for b in names if a != b)
 
 
 def interleaved_session_cases(rng, platform, names, nmax, budget=None):
@@ -494,12 +610,93 @@ def gen_cases(ck, tier):
             elif tier == "thorough":
                 cases += list(interleaved_session_cases(rng, p, names, 4))
             cases += list(interleaved_session_cases(rng, p, names, 0, budget=150 if tier == "quick" else 1500))
+    for p in privgen.PLATFORMS:
+        cases += list(lifecycle_cases(rng, p, 2 if tier == "quick" else 3))
+        cases += list(lifecycle_cases(rng, p, 0, budget=60 if tier == "quick" else 1200))
     cases += list(custom_cases(rng, 80 if tier == "quick" else 1500))
     return cases
 
 
-def want_async(idx, tier):
-    return idx % (4 if tier == "quick" else 5) == 0
+def has_share_group(case):
+    rows = case_rows(case)
+    keys = [r[5] for r in rows]
+    return len(set(keys)) < len(keys)
+
+
+def want_async(idx, tier, case=None):
+    """the asyncio twin runs on every 4th / 5th case, and in the quick tier on EVERY case whose table has levels sharing a prompt or
+    that opens / closes the connection (where the two stacks have the most room to differ)"""
+    if idx % (4 if tier == "quick" else 5) == 0:
+        return True
+    if case is None:
+        return False
+    if tier == "quick":
+        return bool(case.get("hooks")) or has_share_group(case)
+    return (bool(case.get("hooks")) or has_share_group(case)) and idx % 2 == 0
+
+
+def lifecycle_cases(rng, platform, nmax, budget=None):
+    """one driver object through its whole life with the platform's REAL on_open / on_close hooks: open, acquisitions, close, open
+    again ...; the device starts every session at its login level while the object keeps what it remembered"""
+    c = ctx(platform)
+    names = [r[0] for r in c["rows"]]
+    logins = [n for n in names if unambiguous(c["rows"], n)]
+    alpha = [("A", n) for n in names] + ["XO"]
+
+    def expand(h):
+        ops = [("O",)]
+        for t in h:
+            ops += [("X",), ("O",)] if t == "XO" else [t]
+        return ops
+
+    def case(login, h, blocked=(), pwv=(None, "", 3), names_=None):
+        host, user = names_ or rot_names(platform)
+        return dict(platform=platform, login=login, ops=[list(o) for o in expand(h)], blocked=[[list(k), v] for k, v in blocked], dpw=pwv[0], sec=pwv[1],
+                    pwl=pwv[2], host=host, user=user, hooks=True)
+    if budget is None:
+        for login in logins:
+            for n in range(1, nmax + 1):
+                for h in itertools.product(alpha, repeat=n):
+                    if "XO" in h:
+                        yield case(login, h)
+    else:
+        tr = transitions(c["rows"])
+        for _ in range(budget):
+            h = [rng.choice(alpha + ["XO"]) for _ in range(rng.choice([2, 3, 4, 6]))]
+            k = rng.choice([0, 0, 0, 1])
+            blocked = [((m, cmd), rng.choice(["refuse", "ignore"])) for m, cmd in rng.sample(tr, min(k, len(tr)))]
+            yield case(rng.choice(logins), h, blocked, rng.choice(PW_VARIANTS + [(None, "", 3)] * 3), rand_names(rng, platform))
+
+
+def graph_check(case, obs):
+    """the implementation's `_priv_graph` against the MODEL's graph: every snapshot list must be a duplicate-free permutation of
+    `neighbours t a` (the previous level + every level naming `a` as previous; computed here from the table rows exactly like
+    Table.lean `neighbours`) — only the ORDER is taken from the implementation"""
+    sessions = list(dict.fromkeys(o[1] for o in case["ops"] if o[0] == "R"))
+    base_rows = case_rows(case, [])
+    for n, ents in obs["snaps"]:
+        extra = n - len(base_rows)
+        if extra < 0 or extra > len(sessions):
+            return f"graph snapshot for a table of {n} levels cannot be matched to the registered sessions"
+        # sessions are registered in history order; a refused duplicate registration adds nothing
+        rows = case_rows(case, sessions[:extra])
+        if len(rows) != n:
+            continue
+        want = {}
+        for (nm, p, *_r) in rows:
+            want.setdefault(nm, [])
+        for (nm, p, *_r) in rows:
+            if p:
+                want[nm].append(p)
+                want.setdefault(p, []).append(nm)
+        got = {a: list(nbs) for a, nbs in ents}
+        for a in want:
+            g = got.get(a, [])
+            if len(set(g)) != len(g) or sorted(g) != sorted(want[a]):
+                return f"_priv_graph[{a!r}] = {g} is not a permutation of the model's neighbours {want[a]} (table of {n} levels)"
+        if set(got) - set(want):
+            return f"_priv_graph has nodes outside the table: {sorted(set(got) - set(want))}"
+    return None
 
 
 def compare(obs, mrecs, mlog):
@@ -641,11 +838,16 @@ def run(tier, seed):
         o = run_sync(c)
         obs_s.append(o)
         reqs.append(request(c, o))
-    aidx = [i for i in range(len(cases)) if want_async(i, tier)]
+    aidx = [i for i in range(len(cases)) if want_async(i, tier, cases[i])]
 
     async def all_async():
         return [await run_async(cases[i]) for i in aidx]
     obs_a = dict(zip(aidx, asyncio.run(all_async())))
+    areq = {}       # cases whose model request differs between the stacks (per-stack hooks): a second request for the asyncio run
+    for i in aidx:
+        if stacks_differ(cases[i]):
+            areq[i] = len(reqs)
+            reqs.append(request(cases[i], obs_a[i], "async"))
     try:
         mout = run_model("C04", reqs)
     except Exception as e:  # noqa: BLE001
@@ -668,14 +870,19 @@ def run(tier, seed):
                     tags=(c["platform"], f"pathlen={len(pth)}", f"out={last['out']}", f"blocked={min(len(c['blocked']), 4)}",
                           "dpw" if c["dpw"] else "nopw", f"sec={c['sec'] or '-'}", "belief-known" if len(tgt_ops) >= 2 else "belief-unknown",
                           "sessions-interleaved" if any(o[0] == "R" for o in c["ops"][1:]) and tgt_ops else "plain",
+                          "reopened-with-hooks" if c.get("hooks") else "single-session",
                           "host-has-upper" if any(ch.isupper() for ch in c.get("host", "")) else "host-lower"))
         for stack, o in runs:
             if indom:
                 for what, fl in oracle(c, o):
                     ck.violation(dict(c, stack=stack, flags=fl, observed={"recs": o["recs"], "log": o["log"]}), f"{stack}: {what}", matcher)
             if mout is not None:
-                mrecs, mlog, _ = decode_reply(mout[i])
-                d = compare(o, mrecs, mlog)
+                mrecs, mlog, _ = decode_reply(mout[areq[i] if stack == "async" and i in areq else i])
+                d = compare(o, mrecs, mlog) or (graph_check(c, o) if indom else None)
+                if outside_model(c):
+                    ck.extra["advisory_outside_model_cases"] = ck.extra.get("advisory_outside_model_cases", 0) + 1
+                    ck.extra["advisory_outside_model_disagreements"] = ck.extra.get("advisory_outside_model_disagreements", 0) + bool(d)
+                    continue
                 if d:
                     if indom:
                         ck.disagree(f"Priv model vs real {stack} driver", dict(c, stack=stack), d)
